@@ -63,3 +63,20 @@ Proof. intros A1 A2 B1 B2 N1 N2 N3 N4 N5 NS p H1 H2. apply design_mods in H1. ap
   - assert (Q1 : tb1 = t1) by congruence. subst tb1. apply (proj1 (proj2 (NS x1 X1))). congruence.
   - assert (Q1 : tb1 = t1) by congruence. subst tb1. apply (proj2 (proj2 (proj2 (NS x1 X1)))). congruence.
   - assert (Q1 : tb1 = t1) by congruence. assert (Q2 : tb2 = t2) by congruence. subst tb1 tb2. apply (scratch_disjoint t1 t2 x1 x2 N2 X1 X2). congruence. Qed.
+
+(* ---- from file sets to the independence hypothesis of the interleaving theorem ---- *)
+From PC Require Import Conc.FS2.
+Theorem indep_from_sets (V : Type) (g : gstate V) (W R : nat -> list string) :
+  (forall i p, In p (writes V (queue V (snd g i))) -> In p (W i)) ->
+  (forall i p, In p (reads V (queue V (snd g i))) -> In p (R i)) ->
+  (forall i j, i <> j -> forall p, In p (W i) -> ~ In p (W j) /\ ~ In p (R j)) -> indep V g.
+Proof. intros HW HR D i j NE p Hp. destruct (D i j NE p (HW i p Hp)) as [A B]. split; [intros C; apply A, (HW j p C) | intros C; apply B, (HR j p C)]. Qed.
+
+(* hence: processes that write only into their (pairwise disjoint, unread by others) file sets end in the same files and the
+   same observations under every interleaving of their atomic file operations *)
+Corollary runs_with_disjoint_sets_commute (V : Type) (g : gstate V) (W R : nat -> list string) s1 s2 :
+  (forall i p, In p (writes V (queue V (snd g i))) -> In p (W i)) ->
+  (forall i p, In p (reads V (queue V (snd g i))) -> In p (R i)) ->
+  (forall i j, i <> j -> forall p, In p (W i) -> ~ In p (W j) /\ ~ In p (R j)) ->
+  Permutation.Permutation s1 s2 -> geq V (run V s1 g) (run V s2 g).
+Proof. intros HW HR D P. apply (interleavings_equivalent V s1 s2 P g (indep_from_sets V g W R HW HR D)). Qed.
